@@ -13,6 +13,7 @@ import signal
 import subprocess
 import sys
 import time
+from time import monotonic as _wall      # the real clock, bound before sim.seams replaces time.monotonic for the library
 import traceback
 
 VERIF_DIR = os.path.dirname(os.path.dirname(os.path.abspath(__file__)))
@@ -71,10 +72,10 @@ def fork_run(fn, arg, timeout=RUN_WALL_TIMEOUT):
             os._exit(code)
     os.close(w)
     chunks = []
-    deadline = time.monotonic() + timeout
+    deadline = _wall() + timeout
     timed_out = False
     while True:
-        left = deadline - time.monotonic()
+        left = deadline - _wall()
         if left <= 0:
             timed_out = True
             break
@@ -129,7 +130,7 @@ def _worker(prop, indices, verif_seed, tier, deadline, keep_digests_for):
     agg = {"n": 0, "digests": set(), "nt_digests": set(), "stats": {}, "samples": [],
            "viol": {}, "harness": [], "index_digests": {}, "incomplete": 0, "aux": set()}
     for pos, index in enumerate(indices):
-        if time.monotonic() > deadline:
+        if _wall() > deadline:
             agg["incomplete"] = len(indices) - pos
             break
         try:
@@ -182,7 +183,7 @@ def _index_key(index):
 def run_pool(prop, indices, verif_seed, tier, workers, wall_cap, keep_digests_for=()):
     """Static striping: worker w gets indices[w::workers].  The result for an
     index does not depend on which worker ran it (fork per run)."""
-    deadline = time.monotonic() + wall_cap
+    deadline = _wall() + wall_cap
     keep = set(keep_digests_for)
     procs = []
     sys.stdout.flush()
@@ -219,7 +220,7 @@ def run_pool(prop, indices, verif_seed, tier, workers, wall_cap, keep_digests_fo
     open_fds = set(bufs)
     hard_deadline = deadline + RUN_WALL_TIMEOUT + 60
     while open_fds:
-        left = hard_deadline - time.monotonic()
+        left = hard_deadline - _wall()
         if left <= 0:
             break
         rl, _, _ = select.select(list(open_fds), [], [], min(left, 5.0))
@@ -416,11 +417,16 @@ def load_known():
 
 
 # ------------------------------------------------------------------ main
+def py_flags():
+    """interpreter options that are part of a run's configuration (python -O strips assert statements)"""
+    return ["-O"] if sys.flags.optimize else []
+
+
 def ensure_hashseed():
     if os.environ.get("PYTHONHASHSEED") is None:
         env = dict(os.environ)
         env["PYTHONHASHSEED"] = "0"
-        os.execve(sys.executable, [sys.executable] + sys.argv, env)
+        os.execve(sys.executable, [sys.executable] + py_flags() + sys.argv, env)
 
 
 def write_replay(prop, verif_seed, tier, info, prog, res, original_ops):
@@ -437,7 +443,7 @@ def write_replay(prop, verif_seed, tier, info, prog, res, original_ops):
         "run_seed": prog.get("run_seed"), "signature": info["sig"], "violation": v,
         "program": prog, "schedule": res.get("schedule"), "event_digest": res.get("digest"),
         "original_ops": original_ops, "minimised_ops": len(prog.get("ops", [])) if isinstance(prog.get("ops"), list) else None,
-        "events_tail": res.get("events_tail"),
+        "events_tail": res.get("events_tail"), "python_optimize": int(sys.flags.optimize),
     }
     with open(path, "w") as f:
         # no sort_keys: the order of keys in argument dictionaries is part of the program (the library iterates over them,
@@ -467,11 +473,12 @@ def check_main(prop, argv=None):
     ap.add_argument("--no-selfcheck", action="store_true")
     ap.add_argument("--wall-cap", type=float)
     ap.add_argument("--no-evidence", action="store_true")
+    ap.add_argument("--no-optpass", action="store_true", help="skip the second pass under `python -O` (properties with ALSO_OPTIMIZED)")
     ap.add_argument("--dump-digests", help="write the sorted set of event digests of this batch to FILE (determinism self-test)")
     args = ap.parse_args(argv)
     verif_seed = int(os.environ.get("VERIF_SEED", "0"))
     tier = args.tier
-    t0 = time.monotonic()
+    t0 = _wall()
 
     prop.setup(args.repo)
 
@@ -485,6 +492,9 @@ def check_main(prop, argv=None):
         return 0
 
     if args.replay:
+        if json.load(open(args.replay)).get("python_optimize") and not sys.flags.optimize:
+            # the run was made under `python -O` (assert statements stripped): replay it under the same interpreter options
+            os.execve(sys.executable, [sys.executable, "-O"] + sys.argv, dict(os.environ))
         doc, res = replay_file(prop, args.replay)
         if "harness_error" in res:
             print("HARNESS-ERROR property=%s replay=%s\n%s" % (prop.ID, args.replay, res["harness_error"]))
@@ -508,7 +518,7 @@ def check_main(prop, argv=None):
     nseeded = sum(1 for i in indices if not isinstance(i, str))
     det_n = min(24 if tier == "quick" else 64, nseeded)
     agg = run_pool(prop, indices, verif_seed, tier, args.workers, wall_cap, keep_digests_for=range(det_n))
-    t_explore = time.monotonic() - t0
+    t_explore = _wall() - t0
     if args.dump_digests:
         with open(args.dump_digests, "w") as f:
             json.dump(sorted(agg["digests"]), f)
@@ -526,7 +536,7 @@ def check_main(prop, argv=None):
         env = dict(os.environ)
         env["PYTHONHASHSEED"] = "1"
         env["VERIF_SEED"] = str(verif_seed)
-        cmd = [sys.executable, os.path.abspath(sys.argv[0])] + [a for a in sys.argv[1:2]] + [
+        cmd = [sys.executable] + py_flags() + [os.path.abspath(sys.argv[0])] + [a for a in sys.argv[1:2]] + [
             "--tier", tier, "--repo", args.repo, "--digests", "0:%d" % det_n]
         try:
             outp = subprocess.run(cmd, env=env, capture_output=True, text=True, timeout=600)
@@ -577,7 +587,7 @@ def check_main(prop, argv=None):
             minimised = prog
         path = write_replay(prop, verif_seed, tier, info, minimised, res, orig_ops)
         # replay the file in a fresh process; it must fail the same way
-        rp = subprocess.run([sys.executable, os.path.abspath(sys.argv[0]), sys.argv[1], "--replay", path, "--repo", args.repo],
+        rp = subprocess.run([sys.executable] + py_flags() + [os.path.abspath(sys.argv[0]), sys.argv[1], "--replay", path, "--repo", args.repo],
                             capture_output=True, text=True, timeout=600, env=dict(os.environ, PYTHONHASHSEED="0"))
         if rp.returncode != 1 or "REPRODUCED" not in rp.stdout:
             exit_code = 2
@@ -597,7 +607,34 @@ def check_main(prop, argv=None):
     if n_viol and exit_code == 0:
         exit_code = 1
 
-    wall = time.monotonic() - t0
+    # second pass under `python -O`: the interpreter configuration in which assert statements do not exist.  A third of the seeded
+    # runs and the whole enumerated part; its violations come with their own replay files (which record the option)
+    optpass = {"ran": False}
+    if getattr(prop, "ALSO_OPTIMIZED", False) and not sys.flags.optimize and not args.no_optpass and not args.count and exit_code == 0:
+        cmd = [sys.executable, "-O", os.path.abspath(sys.argv[0]), sys.argv[1], "--tier", tier, "--repo", args.repo, "--no-evidence",
+               "--no-selfcheck", "--workers", str(args.workers), "--count", str(max(nseeded // 3, 1))]
+        try:
+            op_ = subprocess.run(cmd, capture_output=True, text=True, timeout=wall_cap,
+                                 env=dict(os.environ, PYTHONHASHSEED="0", VERIF_SEED=str(verif_seed)))
+            out_lines = op_.stdout.strip().splitlines()
+            optpass = {"ran": True, "exit": op_.returncode, "summary": out_lines[-1] if out_lines else ""}
+            if op_.returncode != 0:
+                for l in out_lines:
+                    if l.startswith(("VIOLATION", "KNOWN-FINDING", "HARNESS-ERROR", "  ")):
+                        (lines if not l.startswith("HARNESS") else harness_msgs).append(l if not l.startswith("  ") else l + "   [python -O pass]")
+                if op_.returncode == 1:
+                    n_viol += sum(1 for l in out_lines if l.startswith("VIOLATION"))
+                    if exit_code == 0:
+                        exit_code = 1
+                else:
+                    exit_code = 2
+                    if not any(l.startswith("HARNESS") for l in out_lines):
+                        harness_msgs.append("HARNESS-ERROR property=%s the python -O pass ended with exit %d: %s" % (prop.ID, op_.returncode, (op_.stdout + op_.stderr)[-400:]))
+        except Exception as e:  # noqa
+            exit_code = 2
+            harness_msgs.append("HARNESS-ERROR property=%s the python -O pass failed to run: %r" % (prop.ID, e))
+
+    wall = _wall() - t0
     # evidence
     if not args.no_evidence:
         os.makedirs(EVIDENCE_DIR, exist_ok=True)
@@ -616,11 +653,13 @@ def check_main(prop, argv=None):
             "runs_per_hour": int(agg["n"] / max(t_explore, 1e-6) * 3600),
             "seeds_per_hour": int(nseeded / max(t_explore, 1e-6) * 3600),
             "logical_time": {"seam_events": stats.get("events", 0), "line_steps": stats.get("steps", 0),
-                             "note": "the library has no clock or timer; simulated time is the count of seam events and of source-line steps executed under the step meter/scheduler"},
+                             "simulated_seconds": stats.get("sim_seconds", 0),
+                             "note": "the unchanged library reads no clock and sets no timer; the clock seam (time.time/monotonic/perf_counter/sleep) is simulated and advanced by the programs where a property's workload passes time; otherwise logical time is the count of seam events and of source-line steps executed under the step meter/scheduler"},
             "faults_fired": {k[len("fired."):]: v for k, v in sorted(stats.items()) if k.startswith("fired.")},
             "probes": {k[len("probe."):]: v for k, v in sorted(stats.items()) if k.startswith("probe.")},
             "other_counters": {k: v for k, v in sorted(stats.items()) if not k.startswith(("fired.", "probe.")) and k not in ("events", "steps")},
             "determinism_selfcheck": det,
+            "python_O_pass": optpass,
             "incomplete_runs": agg["incomplete"],
             "components": getattr(prop, "COMPONENTS", None),
             "known_findings_hit": known_hit,
